@@ -1,1 +1,502 @@
-//! c13 — harnesses not written yet.
+//! C13 — variation operators keep solutions well-formed and conserve parental genes.
+//! Code: mahf::components::mutation::functional::{circular_swap,circular_swap2,translocate_slice,translocate_slice2}
+//! Code: mahf::components::recombination::functional::{multi_point_crossover,uniform_crossover,arithmetic_crossover,cycle_crossover}
+//! Code: mahf::components::recombination::{UniformCrossover,NPointCrossover,ArithmeticCrossover,CycleCrossover}::recombine (called directly), recombination (driver), SwapMutation::from_params, DEMutation::{from_params,execute}
+//! Out: solutions longer than 5 elements; the distribution of mutation noise; Normal/Uniform/BitFlip/Scramble/Inversion/Insertion/Translocation mutation *components* through a State with Vec encodings (class S, thorough tier only, best effort)
+//! Assume: helper inputs satisfy exactly the documented `requires` contracts (indices in bounds, range.start <= range.end < len, index + chunk <= len); permutation-ness of cycle-crossover parents
+use mahf::components::mutation::functional as mf;
+use mahf::components::mutation::{de::DEMutation, SwapMutation};
+use mahf::components::recombination::functional as rf;
+use mahf::components::recombination::{
+    ArithmeticCrossover, CycleCrossover, NPointCrossover, OptionalPair, Recombination, UniformCrossover,
+};
+use mahf::components::Component;
+use mahf::state::common::Populations;
+use mahf::{Individual, State};
+
+use crate::problems::{obj, BitP, PermP, RealP};
+use crate::rng::{draws, sym_random};
+use crate::sym;
+
+/// Kani 0.68 cannot compile `let [t, _] = ts;` for element types with drop glue ("sub-array
+/// binding", kani#707), which is how `OptionalPair::from_pair` keeps the first child. The
+/// harnesses that reach it replace that one function by this equivalent (first child kept).
+#[cfg(kani)]
+fn from_pair_model<T>(ts: [T; 2], both: bool) -> OptionalPair<T> {
+    if both {
+        OptionalPair::Both(ts)
+    } else {
+        let mut it = IntoIterator::into_iter(ts);
+        match it.next() {
+            Some(t) => OptionalPair::Single(t),
+            None => unreachable!(),
+        }
+    }
+}
+macro_rules! hs {
+    ($name:ident, $uw:expr, $body:expr) => {
+        #[cfg_attr(kani, kani::proof)]
+        #[cfg_attr(kani, kani::unwind($uw))]
+        #[cfg_attr(kani, kani::stub(mahf::components::recombination::OptionalPair::from_pair, from_pair_model))]
+        pub fn $name() {
+            $body;
+            vcover!(true, "reached");
+        }
+    };
+}
+macro_rules! h {
+    ($name:ident, $uw:expr, $body:expr) => {
+        #[cfg_attr(kani, kani::proof)]
+        #[cfg_attr(kani, kani::unwind($uw))]
+        pub fn $name() {
+            $body;
+            vcover!(true, "reached");
+        }
+    };
+}
+
+fn sym_arr<const N: usize>() -> [u8; N] {
+    let mut a = [0u8; N];
+    let mut i = 0;
+    while i < N {
+        a[i] = sym::u8();
+        i += 1;
+    }
+    a
+}
+fn same_multiset<const N: usize>(a: &[u8; N], b: &[u8; N]) -> bool {
+    let mut i = 0;
+    while i < N {
+        let (mut ca, mut cb) = (0, 0);
+        let mut j = 0;
+        while j < N {
+            if a[j] == a[i] {
+                ca += 1;
+            }
+            if b[j] == a[i] {
+                cb += 1;
+            }
+            j += 1;
+        }
+        if ca != cb {
+            return false;
+        }
+        i += 1;
+    }
+    true
+}
+fn eq_arr<const N: usize>(a: &[u8; N], b: &[u8; N]) -> bool {
+    let mut i = 0;
+    while i < N {
+        if a[i] != b[i] {
+            return false;
+        }
+        i += 1;
+    }
+    true
+}
+
+// ---- circular swap: the two implementations agree -------------------------------------------------
+
+fn circular<const N: usize, const K: usize>() {
+    let orig: [u8; N] = sym_arr();
+    let mut idx = [0usize; K];
+    let mut i = 0;
+    while i < K {
+        idx[i] = sym::usize();
+        sym::assume(idx[i] < N);
+        // the indices to swap are distinct positions (as produced by choose_multiple)
+        let mut j = 0;
+        while j < i {
+            sym::assume(idx[j] != idx[i]);
+            j += 1;
+        }
+        i += 1;
+    }
+    let (mut a, mut b) = (orig, orig);
+    mf::circular_swap(&mut a, &idx);
+    mf::circular_swap2(&mut b, &idx);
+    assert!(eq_arr(&a, &b), "circular_swap and circular_swap2 agree");
+    assert!(same_multiset(&orig, &a), "circular_swap returns a permutation of the same elements");
+    // positions not named are untouched
+    let mut p = 0;
+    while p < N {
+        let mut named = false;
+        let mut k = 0;
+        while k < K {
+            named |= idx[k] == p;
+            k += 1;
+        }
+        if !named {
+            assert!(a[p] == orig[p], "circular_swap leaves unnamed positions alone");
+        }
+        p += 1;
+    }
+}
+// @h tier=quick bound="length 4, 2 distinct indices, all contents" unwind=6
+h!(h_c13_circular_4_2, 6, circular::<4, 2>());
+// @h tier=quick bound="length 4, 3 distinct indices, all contents" unwind=6 cost=2
+h!(h_c13_circular_4_3, 6, circular::<4, 3>());
+// @h tier=quick bound="length 4, 4 distinct indices, all contents" unwind=6 cost=3
+h!(h_c13_circular_4_4, 6, circular::<4, 4>());
+// @h tier=thorough bound="length 5, 4 distinct indices, all contents" unwind=7 cost=6 timeout=1500
+h!(h_c13_circular_5_4, 7, circular::<5, 4>());
+
+// ---- slice translocation: the two implementations agree ---------------------------------------------
+
+/// Shape (start, chunk, index) is concrete per harness (symbolic ranges make `Vec::drain/splice`
+/// and `ptr_rotate` explode); the contents are symbolic. All valid shapes of length 4 are
+/// enumerated in the quick tier, length 5 in the thorough tier.
+fn translocate<const N: usize>(start: usize, chunk: usize, index: usize) {
+    let orig: [u8; N] = sym_arr();
+    let end = start + chunk;
+    let (mut a, mut b) = (orig, orig);
+    mf::translocate_slice(&mut a, start..end, index);
+    mf::translocate_slice2(&mut b, start..end, index);
+    assert!(eq_arr(&a, &b), "translocate_slice and translocate_slice2 agree");
+    assert!(same_multiset(&orig, &a), "translocate_slice returns a permutation of the same elements");
+    let mut k = 0;
+    while k < chunk {
+        assert!(a[index + k] == orig[start + k], "the slice is inserted at the target index");
+        k += 1;
+    }
+}
+fn translocate_all4() {
+    // every (start, chunk, index) with start+chunk < 4, index < 4, index+chunk <= 4
+    let mut start = 0;
+    while start < 4 {
+        let mut chunk = 0;
+        while start + chunk < 4 {
+            let mut index = 0;
+            while index < 4 && index + chunk <= 4 {
+                translocate::<4>(start, chunk, index);
+                index += 1;
+            }
+            chunk += 1;
+        }
+        start += 1;
+    }
+}
+// @h tier=quick bound="length 4: all 26 valid (start, slice length, index) shapes, all contents" unwind=6 cost=6 timeout=900 mem=10
+h!(h_c13_translocate_4_all, 6, translocate_all4());
+// @h tier=quick bound="length 5, slice 1..3 moved right into itself (start 1, len 2, index 2), all contents" unwind=7 cost=2
+h!(h_c13_translocate_5_s1_c2_i2, 7, translocate::<5>(1, 2, 2));
+// @h tier=quick bound="length 5, slice (start 0, len 3, index 1), all contents" unwind=7 cost=2
+h!(h_c13_translocate_5_s0_c3_i1, 7, translocate::<5>(0, 3, 1));
+// @h tier=quick bound="length 5, slice (start 2, len 2, index 0), all contents" unwind=7 cost=2
+h!(h_c13_translocate_5_s2_c2_i0, 7, translocate::<5>(2, 2, 0));
+
+// ---- crossovers --------------------------------------------------------------------------------------
+
+fn conserved(c1: &[u8], c2: &[u8], p1: &[u8], p2: &[u8], i: usize) -> bool {
+    (c1[i] == p1[i] && c2[i] == p2[i]) || (c1[i] == p2[i] && c2[i] == p1[i])
+}
+
+fn uniform<const N: usize>() {
+    let (p1, p2): ([u8; N], [u8; N]) = (sym_arr(), sym_arr());
+    let mut mask = [false; N];
+    let mut i = 0;
+    while i < N {
+        mask[i] = sym::bool();
+        i += 1;
+    }
+    let [c1, c2] = rf::uniform_crossover(&p1, &p2, &mask);
+    assert!(c1.len() == N && c2.len() == N, "uniform crossover: children have the parents' length");
+    let mut i = 0;
+    while i < N {
+        assert!(conserved(&c1, &c2, &p1, &p2, i), "uniform crossover: both genes of a position are conserved across the children");
+        if mask[i] {
+            assert!(c1[i] == p2[i], "uniform crossover: masked positions are exchanged");
+        } else {
+            assert!(c1[i] == p1[i], "uniform crossover: unmasked positions are kept");
+        }
+        i += 1;
+    }
+    std::mem::forget((c1, c2));
+}
+// @h tier=quick bound="length 3, all contents and masks" unwind=5
+h!(h_c13_uniform_3, 5, uniform::<3>());
+// @h tier=quick bound="length 1, all contents and masks" unwind=3
+h!(h_c13_uniform_1, 3, uniform::<1>());
+
+fn multi_point<const N: usize, const K: usize>() {
+    let (p1, p2): ([u8; N], [u8; N]) = (sym_arr(), sym_arr());
+    let mut idx = [0usize; K];
+    let mut i = 0;
+    while i < K {
+        idx[i] = sym::usize();
+        sym::assume(idx[i] < N);
+        i += 1;
+    }
+    let [c1, c2] = rf::multi_point_crossover(&p1, &p2, &idx);
+    assert!(c1.len() == N && c2.len() == N, "n-point crossover: children have the parents' length");
+    let mut i = 0;
+    while i < N {
+        assert!(conserved(&c1, &c2, &p1, &p2, i), "n-point crossover: both genes of a position are conserved across the children");
+        // a position is exchanged iff an odd number of cut points lie at or before it
+        let mut cuts = 0;
+        let mut k = 0;
+        while k < K {
+            if idx[k] <= i {
+                cuts += 1;
+            }
+            k += 1;
+        }
+        if cuts % 2 == 1 {
+            assert!(c1[i] == p2[i], "n-point crossover: segments after an odd number of cuts are exchanged");
+        } else {
+            assert!(c1[i] == p1[i], "n-point crossover: segments after an even number of cuts are kept");
+        }
+        i += 1;
+    }
+    std::mem::forget((c1, c2));
+}
+// @h tier=quick bound="length 4, 1 cut point, all contents" unwind=6
+h!(h_c13_npoint_4_1, 6, multi_point::<4, 1>());
+// @h tier=quick bound="length 4, 2 cut points (any order, may coincide), all contents" unwind=6 cost=2
+h!(h_c13_npoint_4_2, 6, multi_point::<4, 2>());
+// @h tier=thorough bound="length 5, 3 cut points, all contents" unwind=7 cost=4
+h!(h_c13_npoint_5_3, 7, multi_point::<5, 3>());
+
+/// alpha is concrete per harness (a symbolic alpha means four symbolic 64-bit multipliers and did
+/// not finish in 5 min); parents are all finite f64.
+fn arithmetic(n: usize, alpha: f64) {
+    let mut p1 = [0.0; 2];
+    let mut p2 = [0.0; 2];
+    let al = [alpha; 2];
+    let mut i = 0;
+    while i < n {
+        p1[i] = sym::finite_f64();
+        p2[i] = sym::finite_f64();
+        i += 1;
+    }
+    let [c1, c2] = rf::arithmetic_crossover(&p1[..n], &p2[..n], &al[..n]);
+    assert!(c1.len() == n && c2.len() == n, "arithmetic crossover: children have the parents' length");
+    let mut i = 0;
+    while i < n {
+        let e1 = al[i] * p1[i] + (1. - al[i]) * p2[i];
+        let e2 = al[i] * p2[i] + (1. - al[i]) * p1[i];
+        assert!(c1[i].to_bits() == e1.to_bits() || (c1[i].is_nan() && e1.is_nan()), "arithmetic crossover: child 1 is alpha*p1 + (1-alpha)*p2");
+        assert!(c2[i].to_bits() == e2.to_bits() || (c2[i].is_nan() && e2.is_nan()), "arithmetic crossover: child 2 is alpha*p2 + (1-alpha)*p1");
+        if alpha == 1.0 && p1[i].abs() < 1e300 && p2[i].abs() < 1e300 {
+            assert!(c1[i] == p1[i] && c2[i] == p2[i], "alpha = 1 copies the parents");
+        }
+        if alpha == 0.5 && p1[i].abs() < 1e300 && p2[i].abs() < 1e300 {
+            let (lo, hi) = if p1[i] < p2[i] { (p1[i], p2[i]) } else { (p2[i], p1[i]) };
+            assert!(c1[i] >= lo && c1[i] <= hi && c2[i] >= lo && c2[i] <= hi, "alpha = 0.5: children lie between the parents");
+        }
+        i += 1;
+    }
+    std::mem::forget((c1, c2));
+}
+// @h tier=thorough bound="length 2, all finite parents, alpha = 0.5" unwind=5 cost=8 timeout=1800 mem=12
+h!(h_c13_arithmetic_2_half, 5, arithmetic(2, 0.5));
+// @h tier=quick bound="length 1, all finite parents, alpha = 1" unwind=4 cost=2
+h!(h_c13_arithmetic_1_one, 4, arithmetic(1, 1.0));
+// @h tier=quick bound="length 2, all finite parents, alpha = 0" unwind=5 cost=2
+h!(h_c13_arithmetic_2_zero, 5, arithmetic(2, 0.0));
+// @h tier=thorough bound="length 1, all finite parents, alpha = 0.25" unwind=4 cost=8 timeout=1800 mem=12
+h!(h_c13_arithmetic_1_quarter, 4, arithmetic(1, 0.25));
+
+/// Convexity proper, on a magnitude-bounded region (two symbolic products): min <= c <= max up
+/// to a relative slack of 2^-50.
+/// @h tier=thorough bound="length 1, |p| <= 2^20, alpha in [0,1]; min <= child <= max with 2^-50 relative slack" unwind=4 cost=9 timeout=1800 mem=12
+#[cfg_attr(kani, kani::proof)]
+#[cfg_attr(kani, kani::unwind(4))]
+pub fn h_c13_arithmetic_convex_1() {
+    let (x, y, a) = (sym::finite_f64(), sym::finite_f64(), sym::f64());
+    sym::assume(a >= 0.0 && a <= 1.0 && x.abs() <= 1048576.0 && y.abs() <= 1048576.0);
+    let [c1, _c2] = rf::arithmetic_crossover(&[x], &[y], &[a]);
+    let (lo, hi) = if x < y { (x, y) } else { (y, x) };
+    let slack = (hi.abs() + lo.abs() + 1.0) * 8.881784197001252e-16;
+    assert!(c1[0] >= lo - slack && c1[0] <= hi + slack, "arithmetic crossover: the child is a convex combination of the parents");
+    vcover!(a > 0.0 && a < 1.0 && x != y, "proper mix");
+}
+
+fn is_perm<const N: usize>(a: &[u8; N]) -> bool {
+    let mut i = 0;
+    while i < N {
+        if a[i] as usize >= N {
+            return false;
+        }
+        let mut j = 0;
+        while j < i {
+            if a[j] == a[i] {
+                return false;
+            }
+            j += 1;
+        }
+        i += 1;
+    }
+    true
+}
+fn cycle<const N: usize>() {
+    let (p1, p2): ([u8; N], [u8; N]) = (sym_arr(), sym_arr());
+    sym::assume(is_perm(&p1) && is_perm(&p2));
+    let [c1, c2] = rf::cycle_crossover(&p1, &p2);
+    assert!(c1.len() == N && c2.len() == N, "cycle crossover: children have the parents' length");
+    let (mut a, mut b) = ([0u8; N], [0u8; N]);
+    let mut i = 0;
+    while i < N {
+        assert!(conserved(&c1, &c2, &p1, &p2, i), "cycle crossover: both genes of a position are conserved across the children");
+        a[i] = c1[i];
+        b[i] = c2[i];
+        i += 1;
+    }
+    assert!(is_perm(&a) && is_perm(&b), "cycle crossover: children are permutations");
+    std::mem::forget((c1, c2));
+}
+// @h tier=thorough bound="all pairs of permutations of length 3" unwind=6 cost=9 timeout=1800 mem=28
+h!(h_c13_cycle_3, 6, cycle::<3>());
+// @h tier=thorough bound="all pairs of permutations of length 4" unwind=7 cost=8 timeout=1800 mem=12
+h!(h_c13_cycle_4, 7, cycle::<4>());
+
+// ---- constructors accept exactly what their documentation allows -----------------------------------------
+
+/// @h tier=quick bound="every u32 num_swap"
+#[cfg_attr(kani, kani::proof)]
+#[cfg_attr(kani, kani::unwind(3))]
+pub fn h_c13_swap_params() {
+    let n = sym::u32();
+    let r = SwapMutation::from_params(n);
+    assert!(r.is_ok() == (n >= 2), "SwapMutation accepts exactly num_swap >= 2 (\"at least two indices\")");
+    vcover!(n == 2, "two");
+    std::mem::forget(r);
+}
+/// @h tier=quick bound="every u32 y, every f64 f"
+#[cfg_attr(kani, kani::proof)]
+#[cfg_attr(kani, kani::unwind(4))]
+pub fn h_c13_demutation_params() {
+    let (y, f) = (sym::u32(), sym::f64());
+    let r = DEMutation::from_params(y, f);
+    assert!(r.is_ok() == ((y == 1 || y == 2) && f >= 0.0 && f <= 2.0), "DEMutation accepts exactly y in 1..=2 and f in [0,2]");
+    vcover!(r.is_ok(), "accepted");
+    std::mem::forget(r);
+}
+
+// ---- recombine() of the components, called directly ------------------------------------------------------
+
+fn uniform_component(both: bool) {
+    let pc = sym::f64();
+    sym::assume(pc >= 0.0 && pc <= 1.0);
+    let op = UniformCrossover::from_params(pc, both);
+    let (a, b): ([u8; 2], [u8; 2]) = (sym_arr(), sym_arr());
+    let (p1, p2) = (vec![a[0] & 1 == 1, a[1] & 1 == 1], vec![b[0] & 1 == 1, b[1] & 1 == 1]);
+    let mut rng = sym_random(5);
+    let r = Recombination::<BitP>::recombine(&op, &p1, &p2, &mut rng);
+    match r {
+        OptionalPair::None => {
+            assert!(pc < 1.0, "UniformCrossover: with pc = 1 every pair is recombined");
+            assert!(draws() == 1, "UniformCrossover: a pair that is not recombined costs exactly the pc draw");
+        }
+        OptionalPair::Single(c) => {
+            assert!(!both, "UniformCrossover: insert_both = true yields both children");
+            assert!(c.len() == 2, "child length");
+            assert!((c[0] == p1[0] || c[0] == p2[0]) && (c[1] == p1[1] || c[1] == p2[1]), "each position holds a parental gene");
+            std::mem::forget(c);
+        }
+        OptionalPair::Both([c1, c2]) => {
+            assert!(both, "UniformCrossover: insert_both = false yields one child");
+            assert!(c1.len() == 2 && c2.len() == 2, "child lengths");
+            let mut i = 0;
+            while i < 2 {
+                assert!((c1[i] == p1[i] && c2[i] == p2[i]) || (c1[i] == p2[i] && c2[i] == p1[i]), "both genes of a position are conserved");
+                i += 1;
+            }
+            std::mem::forget((c1, c2));
+        }
+    }
+    std::mem::forget((p1, p2, rng));
+}
+// @h tier=quick bound="length 2 bitstrings, any pc in [0,1], insert_both; all draw sequences within 5 draws" unwind=7 cost=4
+hs!(h_c13_uniformcomp_both, 7, uniform_component(true));
+// @h tier=quick bound="length 2 bitstrings, any pc in [0,1], insert one; all draw sequences within 5 draws" unwind=7 cost=4
+hs!(h_c13_uniformcomp_single, 7, uniform_component(false));
+
+// ---- the recombination driver: offspring counts ------------------------------------------------------------
+
+fn driver_counts(n: usize, both: bool) {
+    let mut pops = Populations::<BitP>::new();
+    let mut v = Vec::with_capacity(4);
+    let mut bits = [false; 4];
+    let mut i = 0;
+    while i < n {
+        bits[i] = sym::bool();
+        v.push(Individual::new(vec![bits[i]], obj(sym::legal_f64())));
+        i += 1;
+    }
+    pops.push(v);
+    let mut s: State<BitP> = State::new();
+    s.insert(sym_random(n as u32 + 3));
+    s.insert(pops);
+    // pc = 1: every pair is recombined
+    let r = Component::<BitP>::execute(&UniformCrossover::from_params(1.0, both), &BitP(1), &mut s);
+    assert!(r.is_ok(), "recombination succeeds on a valid population");
+    {
+        let p = s.populations();
+        assert!(p.len() == 1, "recombination replaces the top population");
+        let want = (n / 2) * (if both { 2 } else { 1 }) + n % 2;
+        assert!(p.current().len() == want, "offspring count follows insert-one/insert-both; the odd remainder is copied");
+        if n % 2 == 1 {
+            let last = &p.current()[want - 1];
+            assert!(last.solution().len() == 1 && last.solution()[0] == bits[n - 1], "the unpaired individual is carried over");
+        }
+        let mut i = 0;
+        while i < want {
+            assert!(!p.current()[i].is_evaluated(), "offspring are unevaluated");
+            i += 1;
+        }
+    }
+    std::mem::forget(s);
+}
+// @h tier=thorough bound="driver: population of 1 (odd remainder only), insert_both" unwind=6 cost=9 mem=28 timeout=1800
+hs!(h_c13_driver_counts_1, 6, driver_counts(1, true));
+// @h tier=thorough bound="driver: population of 3, insert one, pc = 1" unwind=8 cost=9 mem=28 timeout=1800
+hs!(h_c13_driver_counts_3_single, 8, driver_counts(3, false));
+// @h tier=thorough bound="driver: population of 2, insert_both, pc = 1" unwind=7 cost=9 mem=28 timeout=1800
+hs!(h_c13_driver_counts_2_both, 7, driver_counts(2, true));
+
+// ---- DE mutation layout guard -----------------------------------------------------------------------------------
+
+fn de_layout(n: usize) {
+    let op = match DEMutation::from_params(1, 0.5) {
+        Ok(op) => op,
+        Err(_) => {
+            assert!(false, "y = 1, f = 0.5 are documented legal parameters");
+            return;
+        }
+    };
+    let mut v = Vec::with_capacity(4);
+    let mut x = [0.0; 4];
+    let mut i = 0;
+    while i < n {
+        x[i] = sym::finite_f64();
+        sym::assume(x[i].abs() <= 1048576.0);
+        v.push(Individual::<RealP>::new_unevaluated(vec![x[i]]));
+        i += 1;
+    }
+    let mut pops = Populations::<RealP>::new();
+    pops.push(v);
+    let mut s: State<RealP> = State::new();
+    s.insert(pops);
+    let r = Component::<RealP>::execute(&op, &RealP::d1(-1.0, 1.0), &mut s);
+    if n % 3 == 0 {
+        assert!(r.is_ok(), "DEMutation accepts a population in the [2y+1]* layout");
+        let p = s.populations();
+        assert!(p.current().len() == n / 3, "DEMutation leaves one mutant per group");
+        if n == 3 {
+            let m = p.current()[0].solution()[0];
+            let e = x[0] + 0.5 * (x[1] - x[2]);
+            assert!(m.to_bits() == e.to_bits(), "DEMutation: base + f * (s1 - s2)");
+        }
+    } else {
+        assert!(r.is_err(), "DEMutation rejects a population that is not in the [2y+1]* layout");
+    }
+    std::mem::forget(s);
+}
+// @h tier=thorough bound="y = 1: population of 3 one-dimensional individuals (valid layout)" unwind=7 cost=9 mem=28 timeout=1800
+h!(h_c13_de_layout_3, 7, de_layout(3));
+// @h tier=thorough bound="y = 1: population of 2 (invalid layout)" unwind=6 cost=9 mem=28 timeout=1800
+h!(h_c13_de_layout_2, 6, de_layout(2));
+// @h tier=thorough bound="y = 1: population of 0" unwind=5 cost=9 mem=28 timeout=1800
+h!(h_c13_de_layout_0, 5, de_layout(0));
